@@ -301,6 +301,46 @@ func genFields(r *rng.R) ([]SField, string) {
 	return fields, trail
 }
 
+// the type x option matrix, one cell per call: a plain name and one option with a valid value
+func validValue(r *rng.R, key string) string {
+	switch key {
+	case "mod":
+		if r.Bool() {
+			return genSimpleClause(r)
+		}
+		return r.Pick([]string{"644", "0755", "7", "4755"})
+	case "gid", "uid":
+		return fmt.Sprint(r.Intn(70000))
+	case "src":
+		return r.Pick([]string{"/etc/vim/vimrc", "$$stageroot/home/user/portage", "rel/file", "/dev/null"})
+	case "dev":
+		return fmt.Sprintf("%s%d:%d", r.Pick([]string{"b", "c"}), r.Intn(256), r.Intn(256))
+	case "targ":
+		return r.Pick([]string{"/var/db/repos/gentoo", "../lib", "busybox"})
+	default:
+		return "skip"
+	}
+}
+
+func genMatrixLine(r *rng.R, cell int) Input {
+	ty := docTypes[(cell/len(docKeys))%len(docTypes)]
+	key := docKeys[cell%len(docKeys)]
+	name := lit(r.Pick([]string{"/etc/conf", "/dev/node0", "/usr/lib/x y", "/opt/a"}))
+	fields := []SField{{"", QBare, lit(ty)}, {genSep(r, false), genStyle(r, name), name}}
+	opt := lit(key + "=" + validValue(r, key))
+	fields = append(fields, SField{genSep(r, false), genStyle(r, opt), opt})
+	if r.Chance(1, 3) { // a second option the type allows
+		if al := allowed[ty]; len(al) > 0 {
+			k2 := r.Pick(al)
+			if k2 != key && !(k2 == "src" && key == "dev") && !(k2 == "dev" && key == "src") && !(k2 == "uid" && key == "gid") && !(k2 == "gid" && key == "uid") {
+				o2 := lit(k2 + "=" + validValue(r, k2))
+				fields = append(fields, SField{genSep(r, false), genStyle(r, o2), o2})
+			}
+		}
+	}
+	return Input{Kind: "line", Line: B(RenderLine(fields, "")), HasS: true, Fields: toJ(fields)}
+}
+
 func genStructuredLine(r *rng.R) Input {
 	fields, trail := genFields(r)
 	return Input{Kind: "line", Line: B(RenderLine(fields, trail)), HasS: true, Fields: toJ(fields), Trail: B(trail)}
